@@ -10,6 +10,7 @@ import FxVerif.Proofs.C14InvQ
 import FxVerif.Proofs.C14InvS
 import FxVerif.Proofs.C14InvI
 import FxVerif.Proofs.C14InvG
+import FxVerif.Proofs.C14InvK
 /-!
 # C14 — account migration moves everything, once, to the address that authorised it
 
@@ -1537,6 +1538,79 @@ theorem later_behaviour_equal_reachable_gov {s0 : State} (hx : IdxInv s0) (hq : 
     ⟨env.modFix, env.wd_frm, env.wd_to, env.wd_val, hc.1, hc.2.1, env.vest_frm, env.vest_to⟩ later hl
 
 
+/-! ## the source of an accepted migration is never a module pool -/
+
+/-- no operation changes which accounts have a usable key -/
+theorem hasKey_step (s : State) (op : Op) : (step cfg s op).1.hasKey = s.hasKey := by
+  have keep : ∀ (o : Option State), (∀ s', o = some s' → keyOf s' = keyOf s) → (ofOpt s o).1.hasKey = s.hasKey := by
+    intro o ho
+    cases o with
+    | none => rfl
+    | some s' => exact ho s' rfl
+  cases op with
+  | send x y d n =>
+    simp only [step]
+    apply keep
+    intro s' hs
+    cases hb : sendUnlocked s.bal (lockedOf s x d) x y d n <;> simp [hb] at hs
+    subst hs; rfl
+  | mint x d n => rfl
+  | delegate d v amt rw => exact keep _ (fun s' hs => delegate_key hs)
+  | undelegate d v amt rw => exact keep _ (fun s' hs => undelegate_key hs)
+  | redelegate d x y amt r1 r2 => exact keep _ (fun s' hs => redelegate_key hs)
+  | withdraw d v rw => exact keep _ (fun s' hs => withdraw_key hs)
+  | setWithdraw d w => rfl
+  | submit x dep => exact keep _ (fun s' hs => submit_key hs)
+  | deposit x id amt => exact keep _ (fun s' hs => deposit_key hs)
+  | vote x id => exact keep _ (fun s' hs => vote_key hs)
+  | block dt => exact endBlock_key s dt
+  | setPeriods dp vp => rfl
+  | setUnbond n => rfl
+  | migrate f t sg =>
+    simp only [step]
+    cases hm : migrate cfg s f t sg with
+    | error e => rfl
+    | ok s' =>
+      obtain ⟨_, _, _, _, _, _, _, rfl⟩ := migrate_ok_inv hm
+      exact migrated_key cfg s f t
+
+theorem hasKey_run (s : State) (ops : List Op) : (run cfg s ops).hasKey = s.hasKey := by
+  induction ops generalizing s with
+  | nil => rfl
+  | cons op ops ih => exact (ih _).trans (hasKey_step s op)
+
+/-- what remains to be assumed about the pair once module pools are known to have no key: the TARGET is not a module
+pool, and no delegator-withdraw-address setting or vesting schedule mentions the source or the target -/
+structure MigEnvMin (s : State) (frm to : Addr) : Prop where
+  to_pool : to ≠ bondedPool ∧ to ≠ notBondedPool ∧ to ≠ govMod
+  wd_frm : get s.wdAddr frm = none
+  wd_to : get s.wdAddr to = none
+  wd_val : ∀ a w, get s.wdAddr a = some w → w ≠ frm ∧ w ≠ to
+  vest_frm : get s.vest frm = none
+  vest_to : get s.vest to = none
+
+/-- **later_behaviour_equal for every reachable state, the source's side of `ModFix` proved**: if no module pool has a
+key in the initial state (the pools are module accounts: they never have one), then after ANY history the source of an
+accepted migration is not a module pool — `checkMigrateFrom` demands a key and no operation hands one out — and the
+simulation of `later_behaviour_equal_reachable_gov` holds under `MigEnvMin` -/
+theorem later_behaviour_equal_reachable_min {s0 : State} (hx : IdxInv s0) (hq : QInv s0) (hsi : SiInv s0 ∧ IdInv s0)
+    (hg : GovInv s0) (hk : bondedPool ∉ s0.hasKey ∧ notBondedPool ∉ s0.hasKey ∧ govMod ∉ s0.hasKey)
+    (before : List Op) {s' : State} {frm to : Addr} {sigOk : Bool}
+    (h : migrate cfg (run cfg s0 before) frm to sigOk = .ok s') (env : MigEnvMin (run cfg s0 before) frm to)
+    (later : List Op) (hl : ∀ op ∈ later, isMigrate op = false) :
+    Sim frm to (run cfg (bankExecute cfg (run cfg s0 before) to frm) later) (run cfg s' (later.map (swOp frm to))) ∧
+    trace cfg (bankExecute cfg (run cfg s0 before) to frm) later = trace cfg s' (later.map (swOp frm to)) := by
+  have hkey := (migrate_ok_inv h).2.2.2.2.1
+  rw [hasKey_run] at hkey
+  have hmem : frm ∈ s0.hasKey := List.contains_iff_mem.mp hkey
+  have f1 : frm ≠ bondedPool := fun e => hk.1 (e ▸ hmem)
+  have f2 : frm ≠ notBondedPool := fun e => hk.2.1 (e ▸ hmem)
+  have f3 : frm ≠ govMod := fun e => hk.2.2 (e ▸ hmem)
+  exact later_behaviour_equal_reachable_gov hx hq hsi hg before h
+    ⟨⟨sw_fix frm to _ f1.symm env.to_pool.1.symm, sw_fix frm to _ f2.symm env.to_pool.2.1.symm,
+      sw_fix frm to _ f3.symm env.to_pool.2.2.symm⟩, env.wd_frm, env.wd_to, env.wd_val, env.vest_frm, env.vest_to⟩ later hl
+
+
 /-! ## non-vacuity -/
 
 /-- a portfolio: balances in two denoms, delegations to two validators, an unbonding delegation sharing its completion
@@ -1670,6 +1744,14 @@ example : GovInv exBaseG ∧
   refine ⟨govInv_base exBaseG rfl rfl rfl, by decide, rfl, ⟨_, rfl, by decide, by decide⟩,
     idxInv_base exBaseG rfl rfl rfl rfl rfl rfl rfl, qInv_base exBaseG rfl rfl, siIdInv_base exBaseG rfl rfl rfl rfl,
     ⟨⟨by decide, by decide, by decide⟩, rfl, rfl, fun a w h => ?_, rfl, rfl⟩⟩
+  have : (run cfg exBaseG (exBeforeG ++ [.block 200, .block 1])).wdAddr = [] := rfl
+  rw [this, get_nil] at h; cases h
+
+/-- the hypotheses of `later_behaviour_equal_reachable_min` hold together in the same example: no pool has a key in
+`exBaseG`, and `MigEnvMin` holds in the state in which the migration is accepted -/
+example : (bondedPool ∉ exBaseG.hasKey ∧ notBondedPool ∉ exBaseG.hasKey ∧ govMod ∉ exBaseG.hasKey) ∧
+    MigEnvMin (run cfg exBaseG (exBeforeG ++ [.block 200, .block 1])) 1 11 := by
+  refine ⟨by decide, ⟨by decide, rfl, rfl, fun a w h => ?_, rfl, rfl⟩⟩
   have : (run cfg exBaseG (exBeforeG ++ [.block 200, .block 1])).wdAddr = [] := rfl
   rw [this, get_nil] at h; cases h
 
